@@ -90,6 +90,9 @@ func New(ctx context.Context, params ...Parameter) (*Service, error) {
 	if !ok {
 		return nil, errors.New("TARGET_AGGREGATORS_PER_COMMITTEE of unexpected type")
 	}
+	if targetAggregatorsPerCommittee == 0 {
+		return nil, errors.New("TARGET_AGGREGATORS_PER_COMMITTEE cannot be 0")
+	}
 
 	s := &Service{
 		log:                            log,
